@@ -2,7 +2,10 @@
 """copies confirmed seeded mutations (verify_results.txt: OK) from /tmp/wt/Cxx/out into /verif/seeded/<id>/"""
 import json, os, re, shutil, sys
 res = {}
-for l in open('/tmp/wt/verify_results.txt'):
+import os as _os
+RESF=_os.environ.get('VERIFY_RES','/tmp/wt/verify_results.txt')
+OFF=int(_os.environ.get('VERIFY_OFFSET','0'))
+for l in open(RESF):
     p = l.split()
     if len(p) >= 2 and '-' in p[0]:
         res[p[0]] = l.strip()
@@ -14,9 +17,10 @@ for tag, line in sorted(res.items()):
     if len(sys.argv) > 1: src = os.path.join(sys.argv[1], pid, 'out')
     dst = '/verif/seeded/%s' % tag
     os.makedirs(dst, exist_ok=True)
-    shutil.copy(os.path.join(src, 'patch%s.diff' % i), os.path.join(dst, 'patch.diff'))
-    shutil.copy(os.path.join(src, 'demo%s.cpp' % i), os.path.join(dst, 'demo.cpp'))
-    m = json.load(open(os.path.join(src, 'meta%s.json' % i)))
+    j = str(int(i) - OFF)
+    shutil.copy(os.path.join(src, 'patch%s.diff' % j), os.path.join(dst, 'patch.diff'))
+    shutil.copy(os.path.join(src, 'demo%s.cpp' % j), os.path.join(dst, 'demo.cpp'))
+    m = json.load(open(os.path.join(src, 'meta%s.json' % j)))
     flags = re.search(r'flags=\[(.*)\]', line).group(1)
     meta = dict(id=tag, property=m.get('property', pid), breaks=m.get('summary'), needs_to_manifest=m.get('needs'),
                 files=m.get('files'), origin='independent sub-agent given only the property text and a scratch worktree',
